@@ -24,9 +24,16 @@ Definition severity (t : mtype) : nat :=
   match t with Debug => 0 | Info => 1 | Warning => 2 | Critical => 3 | Fatal => 4 end.
 Definition mtype_eqb (a b : mtype) : bool := Nat.eqb (severity a) (severity b).
 
-Inductive val := VStr (s : str) | VInt (z : Z).
+(* a QVariant of one of the five value types the vocabulary writes: QString, int, bool, double (the
+   double h/2, so that integral and non-integral doubles occur), QByteArray.  Equality is STRICT (type
+   and value): what a sink observes is userType() + value, never Qt5's loose QVariant::operator==
+   (for which 1 == "1" == true == 1.0 and "abc" == QByteArray("abc")). *)
+Inductive val := VStr (s : str) | VInt (z : Z) | VBool (b : bool) | VDbl (h : Z) | VBytes (b : list N).
 Definition val_eqb (a b : val) : bool :=
-  match a, b with VStr x, VStr y => seqb x y | VInt x, VInt y => Z.eqb x y | _, _ => false end.
+  match a, b with
+  | VStr x, VStr y => seqb x y | VInt x, VInt y => Z.eqb x y | VBool x, VBool y => Bool.eqb x y
+  | VDbl x, VDbl y => Z.eqb x y | VBytes x, VBytes y => seqb x y | _, _ => false
+  end.
 Definition attrs := list (str * val).           (* QVariantHash: insert overrides; order never observed *)
 Fixpoint insert (k : str) (v : val) (a : attrs) : attrs :=
   match a with
@@ -45,10 +52,10 @@ Fixpoint attrs_eqb (a b : attrs) : bool :=
   end.
 
 (* LogMessage::updateAttributes with the hash built from the pairs: every returned key gets the returned value *)
-Fixpoint merge_many (kvs : list (str * str)) (a : attrs) : attrs :=
-  match kvs with [] => a | (k, v) :: r => merge_many r (insert k (VStr v) a) end.
+Fixpoint merge_many (kvs : list (str * val)) (a : attrs) : attrs :=
+  match kvs with [] => a | (k, v) :: r => merge_many r (insert k v a) end.
 (* the value the returned hash holds for k *)
-Fixpoint last_val (k : str) (kvs : list (str * str)) : option str :=
+Fixpoint last_val (k : str) (kvs : list (str * val)) : option val :=
   match kvs with
   | [] => None
   | (k', v) :: r => match last_val k r with Some x => Some x | None => if seqb k k' then Some v else None end
@@ -85,9 +92,9 @@ Definition eval (p : pred) (m : msg) : bool :=
 
 (* the closed vocabulary of scripted leaf behaviours, plus the stateful built-ins *)
 Inductive leaf :=
-| LAttrSet (k v : str)              (* FunctionAttrHandler returning {k: v} *)
+| LAttrSet (k : str) (v : val)      (* FunctionAttrHandler returning {k: v}, v of any of the five types *)
 | LAttrCopy (k : str)               (* FunctionAttrHandler returning {k: formattedMessage()} *)
-| LAttrSetMany (kvs : list (str * str))  (* FunctionAttrHandler returning several pairs (later pairs of the list win) *)
+| LAttrSetMany (kvs : list (str * val))  (* FunctionAttrHandler returning several pairs (later pairs of the list win) *)
 | LFilter (p : pred)                (* FunctionFilter *)
 | LFmtTag (tag : str)               (* FunctionFormatter: tag ":" shown *)
 | LFmtAttr (tag k : str)            (* FunctionFormatter: tag "[" attribute k "]" *)
@@ -95,7 +102,7 @@ Inductive leaf :=
 | LFmtEmpty                         (* FunctionFormatter returning "" *)
 | LSink                             (* recording Sink *)
 | LProbe                            (* recording FunctionHandler that returns true *)
-| LGenSet (k v : str) (r : bool)    (* FunctionHandler: setAttribute, return r *)
+| LGenSet (k : str) (v : val) (r : bool)  (* FunctionHandler: setAttribute(k, v), return r *)
 | LGenRemove (k : str) (r : bool)   (* FunctionHandler: removeAttribute, return r *)
 | LGenFmt (tag : str) (r : bool)    (* FunctionHandler: setFormattedMessage(tag + shown), return r *)
 | LGenClear (r : bool)              (* FunctionHandler: setFormattedMessage(QString()), return r *)
@@ -156,14 +163,14 @@ Definition cfg_goodb (c : pipe_cfg) : bool :=
 Definition res := (store * msg * bool * list event)%type.
 
 Definition attr_val_str (m : msg) (k : str) : str :=
-  match lookup k (mattrs m) with Some (VStr s) => s | Some (VInt _) => [35%N] | None => [45%N] end.
+  match lookup k (mattrs m) with Some (VStr s) => s | Some _ => [35%N] | None => [45%N] end.
 (* Formatter::process: lmsg.setFormattedMessage(format(lmsg)) *)
 Definition apply_fmt (c : pipe_cfg) (m : msg) (f : option str) : msg :=
   if fmt_overwrites c then set_fmt m f else match fmt m with Some _ => m | None => set_fmt m f end.
 
 Definition exec_leaf (c : pipe_cfg) (o : nat) (l : leaf) (st : store) (m : msg) : res :=
   match l with
-  | LAttrSet k v => (st, set_at m (insert k (VStr v) (mattrs m)), attr_continues c, [EExec o true])
+  | LAttrSet k v => (st, set_at m (insert k v (mattrs m)), attr_continues c, [EExec o true])
   | LAttrCopy k => (st, set_at m (insert k (VStr (shown m)) (mattrs m)), attr_continues c, [EExec o true])
   | LAttrSetMany kvs => (st, set_at m (merge_many kvs (mattrs m)), attr_continues c, [EExec o true])
   | LFilter p => let v := eval p m in (st, m, if filter_returns_verdict c then v else true, [EExec o v])
@@ -174,7 +181,7 @@ Definition exec_leaf (c : pipe_cfg) (o : nat) (l : leaf) (st : store) (m : msg) 
   | LFmtEmpty => (st, apply_fmt c m (Some []), fmt_continues c, [EExec o true])
   | LSink => (st, m, sink_continues c, [EDeliver o false (content_of m)])
   | LProbe => (st, m, true, [EDeliver o true (content_of m)])
-  | LGenSet k v r => (st, set_at m (insert k (VStr v) (mattrs m)), r, [EExec o r])
+  | LGenSet k v r => (st, set_at m (insert k v (mattrs m)), r, [EExec o r])
   | LGenRemove k r => (st, set_at m (remove k (mattrs m)), r, [EExec o r])
   | LGenFmt tag r => (st, set_fmt m (Some (tag ++ shown m)), r, [EExec o r])
   | LGenClear r => (st, set_fmt m None, r, [EExec o r])
@@ -387,11 +394,11 @@ Definition effect_seen (l : leaf) (c : content) : bool :=
   | LFmtNull | LGenClear _ => negb (c_formatted c) && seqb (c_text c) (c_raw c)
   | LFmtEmpty => c_formatted c && seqb (c_text c) []
   | LGenFmt tag _ => c_formatted c && prefixb tag (c_text c)
-  | LAttrSet k v | LGenSet k v _ => match lookup k (c_attrs c) with Some (VStr v') => seqb v v' | _ => false end
+  | LAttrSet k v | LGenSet k v _ => match lookup k (c_attrs c) with Some v' => val_eqb v v' | None => false end
   | LGenRemove k _ => match lookup k (c_attrs c) with None => true | Some _ => false end
   | LAttrSetMany kvs =>
       forallb (fun kv => match last_val (fst kv) kvs with
-                         | Some v => match lookup (fst kv) (c_attrs c) with Some (VStr v') => seqb v v' | _ => false end
+                         | Some v => match lookup (fst kv) (c_attrs c) with Some v' => val_eqb v v' | None => false end
                          | None => true
                          end) kvs
   | LSeq name => match lookup name (c_attrs c) with Some (VInt _) => true | _ => false end
@@ -464,3 +471,145 @@ Fixpoint inline (hs : list handler) : list handler :=
   match hs with [] => [] | h :: t => inline_h h ++ inline t end.
 Definition all_accept (evs : list event) : bool :=
   forallb (fun e => match e with EExec _ r => r | EDeliver _ _ _ => true end) evs.
+
+(* ---------------------------------------------------------------- the last write to a key wins *)
+(* the (type, value) leaf l writes to key k when its function runs (statically known for the scripted setters) *)
+Definition leaf_sets (l : leaf) (k : str) : option val :=
+  match l with
+  | LAttrSet k' v | LGenSet k' v _ => if seqb k k' then Some v else None
+  | LAttrSetMany kvs => last_val k kvs
+  | _ => None
+  end.
+(* can leaf l change what key k holds? *)
+Definition writes_key (l : leaf) (k : str) : bool :=
+  match l with
+  | LAttrSet k' _ | LGenSet k' _ _ | LAttrCopy k' | LGenRemove k' _ | LSeq k' => seqb k k'
+  | LAttrSetMany kvs => match last_val k kvs with Some _ => true | None => false end
+  | _ => false
+  end.
+(* can handler h leave key k changed for what runs AFTER it?  A scoped child cannot, whatever it contains. *)
+Fixpoint may_write (k : str) (h : handler) {struct h} : bool :=
+  match h with
+  | HLeaf _ l => writes_key l k
+  | HNull => false
+  | HPipe true _ => false
+  | HPipe false c => (fix mw (hs : list handler) : bool :=
+                        match hs with [] => false | h :: t => may_write k h || mw t end) c
+  end.
+Fixpoint may_write_l (k : str) (hs : list handler) : bool :=
+  match hs with [] => false | h :: t => may_write k h || may_write_l k t end.
+
+(* ---------------------------------------------------------------- structural edits between messages *)
+(* Handler::HandlerType of the real object behind a node (probes and the generic scripted handlers are
+   FunctionHandler = plain Handler) *)
+Inductive hclass := CAttr | CFilter | CFmt | CSink | CPipe | CGen.
+Definition hclass_rank (c : hclass) : nat :=
+  match c with CAttr => 0 | CFilter => 1 | CFmt => 2 | CSink => 3 | CPipe => 4 | CGen => 5 end.
+Definition hclass_eqb (a b : hclass) : bool := Nat.eqb (hclass_rank a) (hclass_rank b).
+Definition leaf_class (l : leaf) : hclass :=
+  match l with
+  | LAttrSet _ _ | LAttrCopy _ | LAttrSetMany _ | LSeq _ => CAttr
+  | LFilter _ | LDup | LLevel _ => CFilter
+  | LFmtTag _ | LFmtAttr _ _ | LFmtNull | LFmtEmpty => CFmt
+  | LSink => CSink
+  | LProbe | LGenSet _ _ _ | LGenRemove _ _ | LGenFmt _ _ | LGenClear _ => CGen
+  end.
+Definition class_of (h : handler) : option hclass :=
+  match h with HLeaf _ l => Some (leaf_class l) | HNull => None | HPipe _ _ => Some CPipe end.
+Definition in_cls (cs : list hclass) (h : handler) : bool :=
+  match class_of h with Some k => existsb (hclass_eqb k) cs | None => false end.
+Definition has_oid (o : nat) (h : handler) : bool :=
+  match h with HLeaf o' _ => Nat.eqb o o' | _ => false end.
+
+(* index of the first element satisfying p (the length if none) *)
+Fixpoint find_first (p : handler -> bool) (l : list handler) : nat :=
+  match l with [] => 0 | x :: r => if p x then 0 else S (find_first p r) end.
+(* index just after the last element satisfying p (0 if none) *)
+Fixpoint after_last (p : handler -> bool) (l : list handler) : nat :=
+  match l with
+  | [] => 0
+  | x :: r => match after_last p r with 0 => if p x then 1 else 0 | S n => S (S n) end
+  end.
+Definition insert_at (n : nat) (h : handler) (l : list handler) : list handler := firstn n l ++ h :: skipn n l.
+(* SortedPipeline::insertBetweenNearLeft / NearRight (sortedpipeline.cpp) *)
+Definition near_left (lt rt : list hclass) (h : handler) (l : list handler) : list handler :=
+  let fr := find_first (in_cls rt) l in insert_at (after_last (in_cls lt) (firstn fr l)) h l.
+Definition near_right (lt rt : list hclass) (h : handler) (l : list handler) : list handler :=
+  let ll := after_last (in_cls lt) l in insert_at (ll + find_first (in_cls rt) (skipn ll l)) h l.
+Definition clear_class (k : hclass) (l : list handler) : list handler :=
+  filter (fun h => negb (in_cls [k] h)) l.
+
+Inductive edit_op :=
+| OAppend (h : handler)         (* Pipeline::append(h) / operator<< / a fluent call of SimplePipeline: at the end; null ignored *)
+| OAppendList (hs : list handler) (* Pipeline::append(initializer_list): at the end, null entries kept *)
+| ORemove (o : nat)             (* Pipeline::remove(object o): every occurrence of that object in THIS list *)
+| OClear                        (* Pipeline::clear() *)
+| OClearClass (k : hclass)      (* SortedPipeline::clearAttrHandlers / Filters / Formatters / Sinks / Pipelines *)
+| OSorted (h : handler).        (* SortedPipeline::appendAttrHandler / appendFilter / setFormatter / appendSink /
+                                   appendPipeline, chosen by the class of h *)
+Definition apply_op (op : edit_op) (l : list handler) : list handler :=
+  match op with
+  | OAppend HNull => l
+  | OAppend h => l ++ [h]
+  | OAppendList hs => l ++ hs
+  | ORemove o => filter (fun h => negb (has_oid o h)) l
+  | OClear => []
+  | OClearClass k => clear_class k l
+  | OSorted h =>
+      match class_of h with
+      | None => l
+      | Some CAttr => near_left [CAttr] [CFilter; CFmt; CSink; CPipe] h l
+      | Some CFilter => near_left [CAttr; CFilter] [CFmt; CSink; CPipe] h l
+      | Some CFmt => near_right [CAttr; CFilter] [CSink; CPipe] h (clear_class CFmt l)
+      | Some CSink => near_right [CAttr; CFilter; CFmt; CSink] [CPipe] h l
+      | Some CPipe | Some CGen => l ++ [h]
+      end
+  end.
+
+(* the pipeline an edit addresses: [] = the root, i :: p = inside the i-th entry (a pipeline) of this list *)
+Fixpoint map_nth (i : nat) (f : handler -> handler) (l : list handler) : list handler :=
+  match l, i with
+  | [], _ => []
+  | x :: r, 0 => f x :: r
+  | x :: r, S j => x :: map_nth j f r
+  end.
+Fixpoint edit_at (path : list nat) (f : list handler -> list handler) (hs : list handler) : list handler :=
+  match path with
+  | [] => f hs
+  | i :: p => map_nth i (fun h => match h with HPipe sc c => HPipe sc (edit_at p f c) | _ => h end) hs
+  end.
+Record edit := { e_path : list nat; e_op : edit_op }.
+Definition apply_edit (e : edit) (root : list handler) : list handler :=
+  edit_at (e_path e) (apply_op (e_op e)) root.
+
+(* a history: messages and edits interleaved.  Every message is evaluated by [run] on the tree AS IT IS
+   AT THAT MOMENT (all earlier edits applied, none of the later ones), handler state threaded. *)
+Inductive step := SMsg (m : msg) | SEdit (e : edit).
+Record outp := { o_tree : list handler; o_msg : msg; o_events : list event; o_final : content }.
+Fixpoint run_steps (c : pipe_cfg) (root : list handler) (st : store) (steps : list step)
+  : store * list handler * list outp :=
+  match steps with
+  | [] => (st, root, [])
+  | SEdit e :: r => run_steps c (apply_edit e root) st r
+  | SMsg m :: r =>
+      let '(st1, m1, _, e) := run c root st m in
+      let '(st2, root2, out) := run_steps c root st1 r in
+      (st2, root2, {| o_tree := root; o_msg := m; o_events := e; o_final := content_of m1 |} :: out)
+  end.
+Definition tree_after (root : list handler) (steps : list step) : list handler :=
+  fold_left (fun t s => match s with SEdit e => apply_edit e t | SMsg _ => t end) steps root.
+Fixpoint count_msgs (steps : list step) : nat :=
+  match steps with [] => 0 | SMsg _ :: r => S (count_msgs r) | SEdit _ :: r => count_msgs r end.
+
+(* the oracle along a history, on the traces the IMPLEMENTATION recorded (one per message): which law
+   fails for each message against the tree of that moment (9 = no trace) *)
+Fixpoint which_steps (root : list handler) (steps : list step) (traces : list (list event)) : list nat :=
+  match steps with
+  | [] => []
+  | SEdit e :: r => which_steps (apply_edit e root) r traces
+  | SMsg m :: r =>
+      match traces with
+      | [] => 9 :: which_steps root r []
+      | t :: ts => prop_c01_which root m t :: which_steps root r ts
+      end
+  end.
